@@ -14,7 +14,7 @@
 import Mhd.Proofs.PPUrl
 import Mhd.Proofs.PPMulti
 import Mhd.Proofs.PPUrlSafe
-import Mhd.Proofs.PPMpRt
+import Mhd.Proofs.PPMxRt
 
 namespace Mhd.C15
 open Mhd.PP
@@ -152,7 +152,7 @@ example : ∃ pp0, create 256 (Mhd.Gen.PP.encMultipart ++
       CR/LF, is read back to the intended four strings by the line parser of `process_multipart_headers`
       (`hdrM` folds `try_get_value`/`try_match_header` over the lines — decidable; it fails e.g. for a
       name containing ` filename=` or a content type containing `Content-Transfer-Encoding: `), and the
-      content type is not `multipart/mixed` (nested containers: see below);
+      content type is not `multipart/mixed` (nested containers: `multipart_nested_roundtrip`);
     * the boundary is not empty (`create` already guarantees `2·|B|+2 ≤ n`).
     Then for **every** list of chunks whose concatenation is the body: every `MHD_post_process` call returns
     `MHD_YES`, `MHD_destroy_post_processor` returns `MHD_YES`, no access leaves an object, and the iterator
@@ -228,21 +228,90 @@ example : ∃ pp, run 256 exCtype [(encodeMultipart (ofStr "AaB03x") exParts).ta
     (by rw [h3]; decide +kernel) exPartOk (by rw [h3]; exact exSplit _)
   exact ⟨pp, r1, r2, r3⟩
 
+/-- **Round trip with nested multipart/mixed and arbitrary header spelling, EVERY split.**
+    `items` is a list of rendered body parts (`Mhd.PP.Item`): a form field (`.field`: any header lines,
+    the metadata they stand for, the value), or a `multipart/mixed` container (`.mixed`: its header
+    lines, field name, Content-Type value ending in `boundary=nb`, the files with their own header
+    lines and values); `encodeItems` writes `--B CRLF lines CRLF CRLF value CRLF …`, a container as
+    `--nb CRLF lines CRLF CRLF value CRLF … --nb-- CRLF`, and `--B-- CRLF` at the end.
+    `ItemOk`: header lines shorter than the buffer and free of CR/LF; the line parser of
+    `process_multipart_headers` reads the intended strings from them (for a file inside a container:
+    started with the container's name — so header names in any letter case, extra parameters etc. are
+    all covered as long as the parser reads them right: decidable); the delimiter of the level does
+    not occur in a value; `2 ≤ |nb|+…` fits the buffer.  Then for every split: every call returns
+    `MHD_YES`, no fault, and the iterator calls deliver exactly `flat items` in order: every file of a
+    container under the container's name with its own file name / type / encoding, and **every field
+    after a container under its own key, file name, content type and encoding** (the `have` marks and
+    `free_unmarked` after `PP_PerformCleanup` are part of the invariant: `MMain.hdr` demands that the
+    cleanup state leaves all four strings NULL). -/
+theorem multipart_nested_roundtrip (n : Nat) (ctype : Bytes) (pp0 : PP) (items : List Item) (chunks : List Bytes)
+    (hc : create n ctype = some pp0) (hu : pp0.isUrl = false) (hB : 1 ≤ pp0.boundary.length)
+    (hit : ∀ it ∈ items, ItemOk (n + 4) pp0.boundary it)
+    (hch : chunks.flatten = encodeItems pp0.boundary items) :
+    ∃ pp, run n ctype chunks = some (pp, true) ∧ pp.fault = none ∧ Delivers pp.evs (flat items) ∧
+      ∀ pre ch post, chunks = pre ++ ch :: post → (feed (feedAll pp0 pre) ch).2 = true :=
+  Mhd.PP.multipart_items_roundtrip n ctype pp0 items chunks hc hu hB hit hch
+
+/-! Non-vacuity: a container `files` (nested boundary `BbC04y`) with one file `f1.txt` (`text/plain`,
+    value `abc`), FOLLOWED by a plain field `after` whose header is written in lower case; cut as above. -/
+
+def exItems : List Item :=
+  [.mixed [ofStr "Content-Disposition: form-data; name=\"files\"", ofStr "Content-Type: multipart/mixed; boundary=BbC04y"]
+      (ofStr "files") (ofStr "multipart/mixed; boundary=BbC04y") (ofStr "BbC04y")
+      [⟨[ofStr "Content-Disposition: attachment; filename=\"f1.txt\"", ofStr "Content-Type: text/plain"],
+        ⟨some (ofStr "files"), some (ofStr "f1.txt"), some (ofStr "text/plain"), none⟩, ofStr "abc"⟩],
+   .field ⟨[ofStr "content-disposition: form-data; name=\"after\""], ⟨some (ofStr "after"), none, none, none⟩, ofStr "x"⟩]
+
+theorem exItemsOk : ∀ it ∈ exItems, ItemOk (256 + 4) (ofStr "AaB03x") it := by
+  intro it hit
+  simp only [exItems, List.mem_cons, List.mem_nil_iff, or_false] at hit
+  rcases hit with rfl | rfl
+  · refine .mixed _ _ _ _ _ ?_ (by decide +kernel) (by decide +kernel) (by decide +kernel) (by decide +kernel)
+      (by decide +kernel) ?_
+    · intro ln hln
+      simp only [List.mem_cons, List.mem_nil_iff, or_false] at hln
+      unfold LineOk
+      rcases hln with rfl | rfl <;> decide +kernel
+    · intro q hq
+      simp only [List.mem_cons, List.mem_nil_iff, or_false] at hq
+      subst hq
+      refine ⟨?_, by decide +kernel, by unfold FreshFor; decide +kernel⟩
+      intro ln hln
+      simp only [List.mem_cons, List.mem_nil_iff, or_false] at hln
+      unfold LineOk
+      rcases hln with rfl | rfl <;> decide +kernel
+  · refine .field _ ⟨?_, by decide +kernel, by unfold FreshFor; decide +kernel⟩ (by intro ct h; cases h)
+    intro ln hln
+    simp only [List.mem_cons, List.mem_nil_iff, or_false] at hln
+    subst hln
+    unfold LineOk
+    decide +kernel
+
+example : ∃ pp, run 256 exCtype [(encodeItems (ofStr "AaB03x") exItems).take 70,
+      ((encodeItems (ofStr "AaB03x") exItems).drop 70).take 1, [],
+      (encodeItems (ofStr "AaB03x") exItems).drop 71] = some (pp, true) ∧ pp.fault = none ∧
+    Delivers pp.evs (flat exItems) := by
+  obtain ⟨pp0, h1, h2, h3⟩ := exCreate
+  obtain ⟨pp, r1, r2, r3, _⟩ := multipart_nested_roundtrip 256 exCtype pp0 exItems _ h1 h2 (by rw [h3]; decide +kernel)
+    (by rw [h3]; exact exItemsOk) (by rw [h3]; exact exSplit _)
+  exact ⟨pp, r1, r2, r3⟩
+
+/-! Finding F34 (fixed in /repo 3c7e4de, model follows the fixed code): before the fix `try_get_value`
+    matched ` filename=` inside the quoted name and `try_match_header` matched a header name anywhere in a
+    line.  Kernel-checked: with the fixed parser the `hdr` clause of `PartOk` holds for these conforming
+    parts (on the unfixed code the first reported the file name `; filename=`, the second the
+    transfer encoding `foo"`). -/
+example : (hdrLines { name := ofStr "a filename=", filename := some (ofStr "y.txt"), value := [] }).foldl hdrM none4
+    = metaP { name := ofStr "a filename=", filename := some (ofStr "y.txt"), value := [] } := by decide +kernel
+example : (hdrLines { name := ofStr "k", ctype := some (ofStr "text/plain; x=\"Content-Transfer-Encoding: foo\""), value := [] }).foldl hdrM none4
+    = metaP { name := ofStr "k", ctype := some (ofStr "text/plain; x=\"Content-Transfer-Encoding: foo\""), value := [] } := by decide +kernel
+
 /-
-  NOT proved (carried by the correspondence run only): the same statement for nested multipart/mixed
-  (a part whose Content-Type is `multipart/mixed; boundary=N` and whose body is itself a multipart body
-  with boundary `N`, every inner file reported under the outer name):
-
-    theorem multipart_nested_roundtrip … (parts : List (Part ⊕ MixedPart)) …
-        Delivers pp.evs (flattened fields, inner files carrying the outer `name` and their own
-                         filename / content type / encoding)
-
-  Missing: the phases `PP_Nested_Init … PP_Nested_PerformCleanup` in the invariant `Mhd.PP.MInv`
-  (`Mhd/Proofs/PPMpInv.lean`): two more `MMain` constructors (`nhdr`, `nval`, with the `have*` marks and
-  `free_unmarked` restoring the outer strings) and the two-level "what follows a delimiter" function in place
-  of `afterB`; `scanBoundary_fresh`, `rn_step`, `hdr_step`/`val_step` are already parametric in the boundary
-  and can be reused.  Also not proved: a purely syntactic sufficient condition for the `hdr` clause of
-  `PartOk` (it is a decidable predicate stated with the line parser itself).
+  Still not proved: a purely syntactic sufficient condition for the `hdr` clauses of `PartOk` / `RPartOk` /
+  `ItemOk` (they are decidable predicates stated with the line parser `hdrM` itself; after fix F34 the
+  expected condition is: no CR/LF/NUL/`"` in the four strings — the missing lemmas are the walks of
+  `tryGetValueGo` / `eqCaselessN` over `dispLine p` with symbolic name and file name), and a preamble before
+  the first delimiter (the `PP_Init` garbage skip; correspondence run only).
 -/
 
 end Mhd.C15
